@@ -156,4 +156,74 @@ def check_C05(run):
                 evaluations=s["extra"]["assigned_evaluations"] + s["extra"]["decoded"], distinct_nontrivial=s["distinct"], exhaustive=True)
 
 
-CHECKS = {"C04": check_C04, "C05": check_C05, "C03": check_C03, "C01": check_C01, "C02": check_C02}
+# ---------------------------------------------------------------------------
+# C20  codes, enumeration values, weights
+# ---------------------------------------------------------------------------
+def check_C20(run):
+    gen.ensure(run, ["tables"], force=True)           # MC_Tables: transcription sanity (ASSUMEs)
+    s, verdicts = record_and_validate(run, ["tables", "-chunks", "4"], "Trace_Tables", "tables")
+    judge(run, verdicts)
+    run.cov.update(s["extra"])
+    run.assumptions += ["harness binding of exported constants to specification codes (v3tab.go, v2tab.go), itself validated against "
+                        "CvssTables by the 'defs' events"]
+    return dict(level=MC, rule="all 22 v3 and 14 v2 metric types and both version parsers: Get*(s) for every code of every metric plus "
+                "lower-case, padded, doubled, foreign and random strings; String(), validity predicate and Value(...) (every scope / base value / "
+                "modified-scope context) for enumeration integers -2..9; each probe is one event validated by TLC against CvssTables",
+                evaluations=s["observations"], distinct_nontrivial=s["distinct"], exhaustive=True)
+
+
+# ---------------------------------------------------------------------------
+# C06  tenth grid and severity bands
+# ---------------------------------------------------------------------------
+def check_C06(run):
+    gen.ensure(run, ["tables"], force=True)           # band partition ASSUMEs
+    gen.ensure(run, ["v2neg", "v3enveff", "v3temporal"])
+    chunks, obs, ndist = [], 0, 0
+    events = []
+    cmds = [["v3base"], ["v3temporal"], ["v3env", "-decodes", "100000", "-sample", "100000000" if run.quick else "2000000000"],
+            ["v2bt"], ["v2env", "-decodes", "200000" if run.quick else "5000000"],
+            ["v3reportscores", "-n", "200000" if run.quick else "3000000"]]
+    for c in cmds:
+        s = harness_json(run, c + ["-out", run.work, "-tier", run.tier, "-pid", "C06", "-chunks", "1"])
+        obs += s["observations"]
+        ndist += s["distinct"]
+        chunks += s["chunks"]
+        for p in s["chunks"]:
+            events += vlib.read_ndjson(p)
+    allp = run.path("grid.all.ndjson")
+    vlib.write_ndjson(allp, events)
+    verdicts = vlib.validate_trace(run, "Trace_Grid", [allp], label="grid")
+    judge(run, verdicts)
+    # which grid values / band edges were attained, per family and level (from the validated tuples)
+    att = {}
+    for e in events:
+        if e["k"] == "g":
+            att.setdefault(e["fam"] + "." + e["lvl"], set()).add(e["obs"])
+    edges = [0, 1, 39, 40, 69, 70, 89, 90, 100]
+    run.cov["attained_values_per_level"] = {k: len(v) for k, v in sorted(att.items())}
+    run.cov["band_edges_attained"] = {k: [x for x in edges if x in v] for k, v in sorted(att.items())}
+    run.cov["negative_equation_tuples"] = sum(1 for e in events if e["k"] == "g" and e.get("neg"))
+    run.samples += events[:: max(1, len(events) // 8)][:8]
+    run.assumptions += ["the negative-equation flag of a v2 environmental tuple is looked up by the harness in the list TLC emitted (MC_V2Neg)",
+                        "a severity/band slip at a score value that no vector attains is not detectable (and does not break the property)"]
+    return dict(level=MC, rule="every score of every level and version reached by the C01-C05 scans (all base and temporal vectors, the v3 "
+                "effective x temporal product and a seeded sample of the concrete product, the whole v2 environmental domain) plus the report score "
+                "fields, collapsed into distinct (family, level, tenth, exactness, printed form, severity, negative-equation) tuples; each tuple judged by TLC",
+                evaluations=obs, distinct_nontrivial=len(events), exhaustive=False)
+
+
+# ---------------------------------------------------------------------------
+# C13  Not Defined is neutral, temporal <= base
+# ---------------------------------------------------------------------------
+def check_C13(run):
+    gen.ensure(run, ["v3temporal"], force=True)       # spec-level: TemporalLeBase, AllNDIsIdentity, XIsNeutral
+    s, verdicts = record_and_validate(run, ["rel13"], "Trace_Grid", "rel13")
+    judge(run, verdicts)
+    run.cov.update(s["extra"])
+    return dict(level=MC, rule="temporal(all ND, every spelled/omitted pattern) = base on all 5,184 v3 and 729 v2 base vectors; v3 environmental(all ND) "
+                "= temporal on all 518,400 vectors except v3.1 scope-changed; temporal <= base on all 518,400 + 72,900 vectors; v2 TD:N => 0 on all "
+                "729 x 101 x 384 vectors; collapsed into distinct (relation, version, scope, lower, upper) tuples judged by TLC",
+                evaluations=s["observations"], distinct_nontrivial=s["distinct"], exhaustive=True)
+
+
+CHECKS = {"C06": check_C06, "C13": check_C13, "C20": check_C20, "C04": check_C04, "C05": check_C05, "C03": check_C03, "C01": check_C01, "C02": check_C02}
